@@ -71,3 +71,436 @@ Proof.
   - apply atan2_range.
 Qed.
 End Explicit.
+
+(* ---------------- general branch ---------------- *)
+
+(* exp of (theta * u) for a unit u and theta above the unit threshold is rodrigues_th u theta *)
+Lemma trexp_so3_scaled K (u0 u1 u2 th : R) :
+  thr_ok K -> u0*u0 + u1*u1 + u2*u2 = 1 -> thv Rops (k_unit K) < th ->
+  trexp_so3 Rops K (u0*th, u1*th, u2*th) = Ok (rodrigues_th Rops (u0,u1,u2) th).
+Proof.
+  intros (Kz & Kzu & Kh & Ke & Kiu & Kz1 & Kiu1) Hu Hth. pose proof eps_pos as He. rewrite thv_R in Hth.
+  assert (0 <= IZR (k_unit K) * eps Rops) by (apply Rmult_le_pos; lra).
+  assert (Hn : norm3 Rops (u0*th, u1*th, u2*th) = th).
+  { c03_simpl. replace (_ + _ + _) with (th*th*(u0*u0 + u1*u1 + u2*u2)) by ring. apply sqrt_sq_scale; [lra | exact Hu]. }
+  unfold trexp_so3, rodrigues3, iszerovec3, unitvec_norm3. rewrite Hn. cbn [ltb Rops].
+  replace (Rltb th _) with false by (symmetry; apply Rltb_false; rewrite thv_R; nra).
+  replace (Rltb _ th) with true by (symmetry; apply Rltb_true; rewrite thv_R; lra).
+  cbn [div Rops]. f_equal. f_equal. repeat apply f_equal2; field; lra.
+Qed.
+
+Theorem explog_so3_general (K : thr) (Rm : M33 R) :
+  thr_ok K -> SO3 Rm ->
+  trlog_so3_branch Rops K Rm = BrGen ->
+  thv Rops (k_unit K) < log_theta Rops Rm ->
+  trexp_so3 Rops K (trlog_so3_tw Rops K Rm) = Ok Rm /\
+  norm3 Rops (trlog_so3_tw Rops K Rm) = log_theta Rops Rm /\ 0 < log_theta Rops Rm <= PI.
+Proof.
+  intros HK HR Hbr Hth. pose proof HK as (Kz & Kzu & Kh & Ke & Kiu & Kz1 & Kiu1). pose proof eps_pos as He.
+  destruct Rm as [[[[r00 r01] r02] [[r10 r11] r12]] [[r20 r21] r22]]. unfold M33, V3 in *.
+  destruct (theta_facts _ _ _ _ _ _ _ _ _ HR) as (Hcos & Hsin & Hr0 & HrP). cbv zeta in *.
+  destruct (st_facts _ _ _ _ _ _ _ _ _ HR) as (Hst0 & Hst2 & Hcs). cbv zeta in *.
+  pose proof (log_li_eq r00 r01 r02 r10 r11 r12 r20 r21 r22) as Hli.
+  pose proof (li_normsq _ _ _ _ _ _ _ _ _ HR) as Hn. cbv zeta in *.
+  set (Rm := ((r00,r01,r02),(r10,r11,r12),(r20,r21,r22))) in *.
+  set (th := log_theta Rops Rm) in *. set (st := log_st Rops Rm) in *. set (c := (r00 + r11 + r22 - 1)/2) in *.
+  assert (Hth0 : 0 < th). { rewrite thv_R in Hth. assert (0 <= IZR (k_unit K) * eps Rops) by (apply Rmult_le_pos; lra). lra. }
+  assert (Hstpos : 0 < st).
+  { destruct (Req_dec st 0) as [E|E]; [|lra]. exfalso. rewrite E in Hsin.
+    (* sin th = 0, 0 < th <= PI -> th = PI -> c = -1 : excluded by the branch test *)
+    assert (th = PI). { destruct (Req_dec th PI); [assumption|]. assert (0 < sin th) by (apply sin_gt_0; lra). lra. }
+    assert (c = -1) by (rewrite <- Hcos; replace th with PI by auto; apply cos_PI).
+    unfold trlog_so3_branch in Hbr. destruct (iseye33 Rops K _); [discriminate|].
+    match type of Hbr with (if ?b then _ else _) = _ => destruct b eqn:Hb; [discriminate|] end.
+    cbn [ltb Rops] in Hb. apply Rltb_false in Hb. apply Hb. rewrite thv_R. unfold Rm. c03_simpl.
+    replace (r00 + r11 + r22 + 1) with 0 by (unfold c in *; lra). rewrite Rabs_R0. nra. }
+  (* the twist-form log *)
+  assert (Hw : trlog_so3_tw Rops K Rm = ((r21 - r12)/2/st*th, (r02 - r20)/2/st*th, (r10 - r01)/2/st*th)).
+  { unfold trlog_so3_tw. rewrite Hbr. unfold log_general. fold th st. clearbody th st. unfold Rm. c03_simpl.
+    tuple_eq ltac:(field; lra). }
+  rewrite Hw.
+  assert (Hu : ((r21 - r12)/2/st)*((r21 - r12)/2/st) + ((r02 - r20)/2/st)*((r02 - r20)/2/st) + ((r10 - r01)/2/st)*((r10 - r01)/2/st) = 1).
+  { transitivity (((r21 - r12)/2*((r21 - r12)/2) + (r02 - r20)/2*((r02 - r20)/2) + (r10 - r01)/2*((r10 - r01)/2))/(st*st)); [field; lra|].
+    rewrite Hn, Hst2. field. rewrite <- Hst2. nra. }
+  split; [|split; [|lra]].
+  - rewrite trexp_so3_scaled by assumption. f_equal. unfold rodrigues_th. cbn [cos_ sin_ Rops]. rewrite Hcos, Hsin.
+    apply rodrigues_of_log; [exact HR | exact Hst2 | lra].
+  - c03_simpl. replace (_ + _ + _) with (th*th*(((r21 - r12)/2/st)*((r21 - r12)/2/st) + ((r02 - r20)/2/st)*((r02 - r20)/2/st) + ((r10 - r01)/2/st)*((r10 - r01)/2/st))) by ring.
+    apply sqrt_sq_scale; [lra | exact Hu].
+Qed.
+
+(* log(exp S) = S in the general branch: S = theta u, u unit, 0 < theta < pi *)
+Theorem logexp_so3_general K (u : V3 R) th :
+  normsq3 Rops u = 1 -> 0 < th < PI ->
+  trlog_so3_branch Rops K (rodrigues_th Rops u th) = BrGen ->
+  trlog_so3_tw Rops K (rodrigues_th Rops u th) = vscale3 Rops th u.
+Proof.
+  intros Hu Hth Hbr. unfold trlog_so3_tw. rewrite Hbr. unfold log_general.
+  assert (Hs : 0 < sin th) by (apply sin_gt_0; lra).
+  destruct u as [[u0 u1] u2].
+  assert (Hli : log_li Rops (rodrigues_th Rops (u0,u1,u2) th) = (sin th * u0, sin th * u1, sin th * u2)).
+  { unfold rodrigues_th. cbn [cos_ sin_ Rops]. generalize (cos th) (sin th). intros c s. c03_simpl. tuple_eq ltac:(field). }
+  assert (Hst : log_st Rops (rodrigues_th Rops (u0,u1,u2) th) = sin th).
+  { unfold log_st. rewrite Hli. c03_simpl. replace (_ + _ + _) with (sin th * sin th * (u0*u0 + u1*u1 + u2*u2)) by ring.
+    apply sqrt_sq_scale; [lra|]. c03_simpl. exact Hu. }
+  assert (Hc : log_c Rops (rodrigues_th Rops (u0,u1,u2) th) = cos th).
+  { unfold rodrigues_th. cbn [cos_ sin_ Rops]. c03_simpl. generalize (cos th) (sin th). intros c s.
+    transitivity ((3 - 2*(1 - c)*(u0*u0 + u1*u1 + u2*u2) - 1)/(1+1)); [f_equal; ring | rewrite Hu; field]. }
+  assert (Hlt : log_theta Rops (rodrigues_th Rops (u0,u1,u2) th) = th).
+  { unfold log_theta. rewrite Hst, Hc. cbn [atan2_ Rops]. apply atan2_sin_cos. lra. }
+  rewrite Hlt, Hst. unfold rodrigues_th. cbn [cos_ sin_ Rops]. revert Hs.
+  generalize (cos th) (sin th). intros c s Hs. c03_simpl. tuple_eq ltac:(field; lra).
+Qed.
+
+(* ---------------- half-turn branch: algebra ---------------- *)
+
+(* Rodrigues rebuilt from its parts: unit w, sin*w = l, (1-c) w w' = B  ==>  c I + skew(l) + B *)
+Lemma rod_from_parts w0 w1 w2 c st l0 l1 l2 B00 B01 B02 B11 B12 B22 :
+  w0*w0 + w1*w1 + w2*w2 = 1 -> st*w0 = l0 -> st*w1 = l1 -> st*w2 = l2 ->
+  (1-c)*(w0*w0) = B00 -> (1-c)*(w0*w1) = B01 -> (1-c)*(w0*w2) = B02 ->
+  (1-c)*(w1*w1) = B11 -> (1-c)*(w1*w2) = B12 -> (1-c)*(w2*w2) = B22 ->
+  rodrigues_cs Rops (w0,w1,w2) c st =
+  ((c + B00, - l2 + B01, l1 + B02), (l2 + B01, c + B11, - l0 + B12), (- l1 + B02, l0 + B12, c + B22)).
+Proof.
+  intros Hw <- <- <- <- <- <- <- <- <-. c03_simpl.
+  assert (E : w2*w2 = 1 - w0*w0 - w1*w1) by lra.
+  tuple_eq ltac:(try ring).
+  all: assert (E2 : w2^2 = 1 - w0^2 - w1^2) by (simpl; lra); ring_simplify; rewrite E2; ring.
+Qed.
+
+Lemma sq_eq_nonneg a b : 0 <= a -> 0 <= b -> a*a = b*b -> a = b.
+Proof. intros. nra. Qed.
+
+(* the half-turn axis: a column b of the rank-one matrix B = (1-c) n n', normalised by sqrt((1-c) B_kk), sign fixed by l *)
+Lemma axis_from_column b0 b1 b2 bkk q l0 l1 l2 st B00 B01 B02 B11 B12 B22 :
+  0 < bkk -> 0 < q -> 0 <= st -> st*st = l0*l0 + l1*l1 + l2*l2 ->
+  b0*b0 = B00*bkk -> b0*b1 = B01*bkk -> b0*b2 = B02*bkk -> b1*b1 = B11*bkk -> b1*b2 = B12*bkk -> b2*b2 = B22*bkk ->
+  b0*(b0*l0 + b1*l1 + b2*l2) = q*bkk*l0 -> b1*(b0*l0 + b1*l1 + b2*l2) = q*bkk*l1 -> b2*(b0*l0 + b1*l1 + b2*l2) = q*bkk*l2 ->
+  B00 + B11 + B22 = q ->
+  let d := sqrt (q*bkk) in
+  let w := (b0/d, b1/d, b2/d) in
+  let wf := if Rltb (dot3 Rops w (l0,l1,l2)) 0 then vneg3 Rops w else w in
+  let '(f0,f1,f2) := wf in
+  f0*f0 + f1*f1 + f2*f2 = 1 /\ st*f0 = l0 /\ st*f1 = l1 /\ st*f2 = l2 /\
+  q*(f0*f0) = B00 /\ q*(f0*f1) = B01 /\ q*(f0*f2) = B02 /\ q*(f1*f1) = B11 /\ q*(f1*f2) = B12 /\ q*(f2*f2) = B22.
+Proof.
+  intros Hb Hq Hst Hst2 A00 A01 A02 A11 A12 A22 L0 L1 L2 Htr. cbv zeta.
+  assert (Hd2 : sqrt (q*bkk) * sqrt (q*bkk) = q*bkk) by (apply sqrt_sqrt; nra).
+  assert (Hd : 0 < sqrt (q*bkk)) by (apply sqrt_lt_R0; nra).
+  set (d := sqrt (q*bkk)) in *. clearbody d.
+  set (s := dot3 Rops (b0/d, b1/d, b2/d) (l0,l1,l2)).
+  assert (Hs : s = (b0*l0 + b1*l1 + b2*l2)/d) by (unfold s; c03_simpl; field; lra).
+  (* w_i * s = l_i *)
+  assert (W0 : b0/d*s = l0) by (rewrite Hs; transitivity (b0*(b0*l0 + b1*l1 + b2*l2)/(d*d)); [field; lra | rewrite L0, Hd2; field; lra]).
+  assert (W1 : b1/d*s = l1) by (rewrite Hs; transitivity (b1*(b0*l0 + b1*l1 + b2*l2)/(d*d)); [field; lra | rewrite L1, Hd2; field; lra]).
+  assert (W2 : b2/d*s = l2) by (rewrite Hs; transitivity (b2*(b0*l0 + b1*l1 + b2*l2)/(d*d)); [field; lra | rewrite L2, Hd2; field; lra]).
+  assert (Hss : s*s = st*st).
+  { rewrite Hst2. rewrite <- W0 at 1. rewrite <- W1 at 1. rewrite <- W2 at 1.
+    replace (b0/d*s*l0 + b1/d*s*l1 + b2/d*s*l2) with (s * ((b0*l0 + b1*l1 + b2*l2)/d)) by (field; lra).
+    rewrite <- Hs. reflexivity. }
+  (* products *)
+  assert (P : forall x y Bxy, x*y = Bxy*bkk -> q*(x/d*(y/d)) = Bxy).
+  { intros x y Bxy E. transitivity (q*(x*y)/(d*d)); [field; lra | rewrite E, Hd2; field; lra]. }
+  assert (Hww : b0/d*(b0/d) + b1/d*(b1/d) + b2/d*(b2/d) = 1).
+  { apply Rmult_eq_reg_l with q; [|lra]. rewrite !Rmult_plus_distr_l.
+    rewrite (P _ _ _ A00), (P _ _ _ A11), (P _ _ _ A22). lra. }
+  unfold Rltb. destruct (Rlt_dec s 0) as [Neg|Pos]; cbn [vneg3 neg Rops].
+  - assert (Es : - s = st) by (apply sq_eq_nonneg; [lra | lra | nra]).
+    repeat split.
+    + rewrite <- Hww. ring.
+    + rewrite <- Es, <- W0. ring.
+    + rewrite <- Es, <- W1. ring.
+    + rewrite <- Es, <- W2. ring.
+    + rewrite <- (P _ _ _ A00). ring.
+    + rewrite <- (P _ _ _ A01). ring.
+    + rewrite <- (P _ _ _ A02). ring.
+    + rewrite <- (P _ _ _ A11). ring.
+    + rewrite <- (P _ _ _ A12). ring.
+    + rewrite <- (P _ _ _ A22). ring.
+  - assert (Es : s = st) by (apply sq_eq_nonneg; [lra | lra | nra]).
+    repeat split; try (rewrite <- Es; assumption); try assumption; try (apply P; assumption); rewrite <- Es; [rewrite <- W0 | rewrite <- W1 | rewrite <- W2]; ring.
+Qed.
+
+Section P.
+Variables r00 r01 r02 r10 r11 r12 r20 r21 r22 : R.
+Hypothesis HR : SO3 ((r00,r01,r02),(r10,r11,r12),(r20,r21,r22)).
+Let t := r00 + r11 + r22 - 1.
+Let b00 := 2*r00 - t. Let b11 := 2*r11 - t. Let b22 := 2*r22 - t.
+Let b01 := r01 + r10. Let b02 := r02 + r20. Let b12 := r12 + r21.
+Let m0 := r21 - r12. Let m1 := r02 - r20. Let m2 := r10 - r01.
+Lemma so3_sym_rank1 :
+  b00*b11 = b01*b01 /\ b00*b22 = b02*b02 /\ b11*b22 = b12*b12 /\
+  b01*b02 = b00*b12 /\ b01*b12 = b11*b02 /\ b02*b12 = b22*b01.
+Proof. unfold b00,b11,b22,b01,b02,b12,t. so3_facts HR. repeat split; nsatz. Qed.
+Lemma so3_sym_axis :
+  b01*m0 = b00*m1 /\ b02*m0 = b00*m2 /\ b01*m1 = b11*m0 /\ b12*m1 = b11*m2 /\ b02*m2 = b22*m0 /\ b12*m2 = b22*m1.
+Proof. unfold b00,b11,b22,b01,b02,b12,m0,m1,m2,t. so3_facts HR. repeat split; nsatz. Qed.
+
+(* the same in terms of B = (R+R')/2 - c I and l = vex((R-R')/2) *)
+Let c := (r00 + r11 + r22 - 1)/2.
+Let B00 := r00 - c. Let B11 := r11 - c. Let B22 := r22 - c.
+Let B01 := (r01 + r10)/2. Let B02 := (r02 + r20)/2. Let B12 := (r12 + r21)/2.
+Let l0 := (r21 - r12)/2. Let l1 := (r02 - r20)/2. Let l2 := (r10 - r01)/2.
+Lemma so3_B_facts :
+  (B00*B11 = B01*B01 /\ B00*B22 = B02*B02 /\ B11*B22 = B12*B12 /\
+   B01*B02 = B00*B12 /\ B01*B12 = B11*B02 /\ B02*B12 = B22*B01) /\
+  (B01*l0 = B00*l1 /\ B02*l0 = B00*l2 /\ B01*l1 = B11*l0 /\ B12*l1 = B11*l2 /\ B02*l2 = B22*l0 /\ B12*l2 = B22*l1) /\
+  B00 + B11 + B22 = 1 - c.
+Proof.
+  destruct so3_sym_rank1 as (R1&R2&R3&R4&R5&R6). destruct so3_sym_axis as (A1&A2&A3&A4&A5&A6).
+  assert (E00 : b00 = 2*B00) by (unfold b00, B00, c, t; field).
+  assert (E11 : b11 = 2*B11) by (unfold b11, B11, c, t; field).
+  assert (E22 : b22 = 2*B22) by (unfold b22, B22, c, t; field).
+  assert (E01 : b01 = 2*B01) by (unfold b01, B01; field).
+  assert (E02 : b02 = 2*B02) by (unfold b02, B02; field).
+  assert (E12 : b12 = 2*B12) by (unfold b12, B12; field).
+  assert (F0 : m0 = 2*l0) by (unfold m0, l0; field).
+  assert (F1 : m1 = 2*l1) by (unfold m1, l1; field).
+  assert (F2 : m2 = 2*l2) by (unfold m2, l2; field).
+  rewrite E00, E11, E22, E01, E02, E12 in *. rewrite F0, F1, F2 in *.
+  assert (Htr : B00 + B11 + B22 = 1 - c) by (unfold B00, B11, B22, c; field).
+  clearbody B00 B11 B22 B01 B02 B12 l0 l1 l2.
+  repeat split; lra.
+Qed.
+End P.
+
+(* ---------------- half-turn branch: the theorem ---------------- *)
+
+Definition thr_ok2 (K : thr) : Prop := thr_ok K /\ IZR (k_half K) * eps Rops < 2 /\ IZR (k_unit K) * eps Rops < 1.
+
+Lemma sympart_minus_eq r00 r01 r02 r10 r11 r12 r20 r21 r22 c :
+  sympart_minus Rops ((r00,r01,r02),(r10,r11,r12),(r20,r21,r22)) c =
+  ((r00 - c, (r01 + r10)/2, (r02 + r20)/2), ((r01 + r10)/2, r11 - c, (r12 + r21)/2), ((r02 + r20)/2, (r12 + r21)/2, r22 - c)).
+Proof. c03_simpl. tuple_eq ltac:(field). Qed.
+
+Ltac ltype_k lk :=
+  match goal with |- ?x * ?S = ?q * ?bkk * ?li =>
+    let ES := fresh "ES" in let EX := fresh "EX" in
+    match goal with Htr : ?tB = q |- _ =>
+      assert (ES : S = tB * lk) by lra; rewrite Htr in ES;
+      assert (EX : x * lk = bkk * li) by lra;
+      rewrite ES; transitivity (q * (x * lk)); [ring | first [ring | rewrite EX; ring]]
+    end
+  end.
+
+Theorem explog_so3_halfturn (K : thr) (Rm : M33 R) :
+  thr_ok2 K -> SO3 Rm ->
+  trlog_so3_branch Rops K Rm = BrHalf ->
+  trexp_so3 Rops K (trlog_so3_tw Rops K Rm) = Ok Rm /\
+  norm3 Rops (trlog_so3_tw Rops K Rm) = log_theta Rops Rm /\ 0 < log_theta Rops Rm <= PI.
+Proof.
+  intros (HK & Kh2 & Ku1) HR Hbr. pose proof HK as (Kz & Kzu & Kh & Ke & Kiu & Kz1 & Kiu1). pose proof eps_pos as He.
+  destruct Rm as [[[[r00 r01] r02] [[r10 r11] r12]] [[r20 r21] r22]]. unfold M33, V3 in *.
+  destruct (theta_facts _ _ _ _ _ _ _ _ _ HR) as (Hcos & Hsin & Hr0 & HrP). cbv zeta in *.
+  destruct (st_facts _ _ _ _ _ _ _ _ _ HR) as (Hst0 & Hst2 & Hcs). cbv zeta in *.
+  pose proof (log_li_eq r00 r01 r02 r10 r11 r12 r20 r21 r22) as Hli.
+  pose proof (log_c_eq r00 r01 r02 r10 r11 r12 r20 r21 r22) as Hc.
+  pose proof (li_normsq _ _ _ _ _ _ _ _ _ HR) as Hn. cbv zeta in *.
+  destruct (so3_B_facts _ _ _ _ _ _ _ _ _ HR) as ((R1&R2&R3&R4&R5&R6) & (A1&A2&A3&A4&A5&A6) & Htr).
+  set (Rm := ((r00,r01,r02),(r10,r11,r12),(r20,r21,r22))) in *.
+  set (th := log_theta Rops Rm) in *. set (st := log_st Rops Rm) in *. set (c := (r00 + r11 + r22 - 1)/2) in *.
+  set (B00 := r00 - c) in *. set (B11 := r11 - c) in *. set (B22 := r22 - c) in *.
+  set (B01 := (r01 + r10)/2) in *. set (B02 := (r02 + r20)/2) in *. set (B12 := (r12 + r21)/2) in *.
+  set (l0 := (r21 - r12)/2) in *. set (l1 := (r02 - r20)/2) in *. set (l2 := (r10 - r01)/2) in *.
+  (* the band: c < 0 *)
+  assert (Hcneg : c < 0).
+  { unfold trlog_so3_branch in Hbr. destruct (iseye33 Rops K _); [discriminate|].
+    match type of Hbr with (if ?b then _ else _) = _ => destruct b eqn:Hb; [|discriminate] end.
+    cbn [ltb Rops] in Hb. apply Rltb_true in Hb. rewrite thv_R in Hb. unfold Rm in Hb. c03_simpl.
+    apply Rabs_def2 in Hb. unfold c. lra. }
+  assert (Hq : 0 < 1 - c) by lra.
+  assert (Hth : PI/2 < th).
+  { destruct (Rlt_dec (PI/2) th); [assumption|exfalso]. assert (0 <= cos th) by (apply cos_ge_0; lra). lra. }
+  assert (Hthu : thv Rops (k_unit K) < th).
+  { rewrite thv_R. pose proof PI2_1. lra. }
+  (* the result of the branch *)
+  unfold trlog_so3_tw. rewrite Hbr. unfold halfturn_w. fold th.
+  assert (HB : sympart_minus Rops Rm c = ((B00,B01,B02),(B01,B11,B12),(B02,B12,B22))) by (unfold Rm; apply sympart_minus_eq).
+  unfold halfturn_axis. rewrite Hc, Hli. fold c. rewrite !HB.
+  assert (Hst2' : st*st = l0*l0 + l1*l1 + l2*l2) by lra.
+  (* whichever column the argmax picks, its diagonal entry is positive *)
+  assert (Fin : forall f0 f1 f2 : R,
+     f0*f0 + f1*f1 + f2*f2 = 1 /\ st*f0 = l0 /\ st*f1 = l1 /\ st*f2 = l2 /\
+     (1-c)*(f0*f0) = B00 /\ (1-c)*(f0*f1) = B01 /\ (1-c)*(f0*f2) = B02 /\ (1-c)*(f1*f1) = B11 /\ (1-c)*(f1*f2) = B12 /\ (1-c)*(f2*f2) = B22 ->
+     trexp_so3 Rops K (f0*th, f1*th, f2*th) = Ok Rm /\ norm3 Rops (f0*th, f1*th, f2*th) = th /\ 0 < th <= PI).
+  { intros f0 f1 f2 (Hf & S0 & S1 & S2 & P00 & P01 & P02 & P11 & P12 & P22).
+    split; [|split; [|lra]].
+    - rewrite trexp_so3_scaled by assumption. f_equal. unfold rodrigues_th. cbn [cos_ sin_ Rops]. rewrite Hcos, Hsin.
+      rewrite (rod_from_parts f0 f1 f2 c st l0 l1 l2 B00 B01 B02 B11 B12 B22) by assumption.
+      unfold Rm, B00, B11, B22, B01, B02, B12, l0, l1, l2. tuple_eq ltac:(field).
+    - c03_simpl. replace (_ + _ + _) with (th*th*(f0*f0 + f1*f1 + f2*f2)) by ring. apply sqrt_sq_scale; [lra | exact Hf]. }
+  unfold argmax3. cbn [leb Rops]. unfold Rleb.
+  destruct (Rle_dec B11 B00) as [H10|H10]; destruct (Rle_dec B22 B00) as [H20|H20]; cbn [andb];
+    try (destruct (Rle_dec B22 B11) as [H21|H21]); cbn [col33 mtr33 diag_k].
+  all: cbn [one sub mul div ltb zero sqrt_ Rops].
+  all: match goal with
+       | |- context [sqrt (_ * ?bkk)] => assert (Hbkk : 0 < bkk) by lra
+       end.
+  all: match goal with
+       | |- context [Rltb (dot3 Rops (?b0 / sqrt (_ * ?bkk), ?b1 / _, ?b2 / _) _) 0] =>
+         pose proof (axis_from_column b0 b1 b2 bkk (1 - c) l0 l1 l2 st B00 B01 B02 B11 B12 B22 Hbkk Hq Hst0 Hst2') as AX
+       end.
+  all: repeat match type of AX with
+       | (?P -> _) => let H := fresh "Hp" in assert (H : P); [ clear AX; solve [ring | lra | ltype_k l0 | ltype_k l1 | ltype_k l2] | specialize (AX H); clear H ]
+       end.
+  all: cbv zeta in AX.
+  all: match goal with |- context [if ?b then _ else _] => destruct b end.
+  all: cbn [vneg3 neg Rops] in *.
+  all: cbv beta iota zeta in AX; cbv beta iota zeta; apply Fin; exact AX.
+Qed.
+
+(* ---------------- exp(log R) = R on the whole of SO(3) outside the identity band ---------------- *)
+Theorem explog_SO3 (K : thr) (Rm : M33 R) :
+  thr_ok2 K -> SO3 Rm ->
+  trlog_so3_branch Rops K Rm <> BrEye ->
+  thv Rops (k_unit K) < log_theta Rops Rm ->
+  trexp_so3 Rops K (trlog_so3_tw Rops K Rm) = Ok Rm /\
+  norm3 Rops (trlog_so3_tw Rops K Rm) = log_theta Rops Rm /\ 0 < log_theta Rops Rm <= PI.
+Proof.
+  intros HK HR Hne Hth. destruct (trlog_so3_branch Rops K Rm) eqn:Hbr.
+  - contradiction.
+  - apply explog_so3_halfturn; assumption.
+  - apply explog_so3_general; [exact (proj1 HK) | assumption..].
+Qed.
+
+
+(* ---------------- 2-D: closed-form logarithm (fix c4462a7) ---------------- *)
+Definition thr_ok_2d (K : thr) : Prop := thr_ok K /\ IZR (k_iszero K) <= IZR (k_unit K).
+
+(* the value of trexp2 on an se(2) vector with |theta| above the unit threshold *)
+Lemma trexp2_se2_value K v0 v1 th :
+  thr_ok_2d K -> thv Rops (k_unit K) < Rabs th ->
+  trexp2_se2 Rops K (v0, v1, th) =
+  Ok ((cos th, - sin th, (sin th * v0 - (1 - cos th) * v1)/th),
+      (sin th, cos th, ((1 - cos th) * v0 + sin th * v1)/th), (0, 0, 1)).
+Proof.
+  intros (HK & Kiz) Hth. pose proof HK as (Kz & Kzu & Kh & Ke & Kiu & Kz1 & Kiu1). pose proof eps_pos as He.
+  rewrite thv_R in Hth.
+  assert (Hku : 0 <= IZR (k_unit K) * eps Rops) by (apply Rmult_le_pos; lra).
+  assert (Hzu : IZR (k_zero K) * eps Rops <= IZR (k_unit K) * eps Rops) by (apply Rmult_le_compat_r; lra).
+  assert (Hizu : IZR (k_iszero K) * eps Rops <= IZR (k_unit K) * eps Rops) by (apply Rmult_le_compat_r; lra).
+  assert (Hphi : 0 < Rabs th) by lra.
+  assert (Hth0 : th <> 0) by (intro E; rewrite E, Rabs_R0 in Hphi; lra).
+  unfold trexp2_se2, iszerovec3.
+  assert (Hn : ~ norm3 Rops (v0, v1, th) < thv Rops (k_zero K)).
+  { rewrite thv_R. c03_simpl. intro H.
+    assert (Rabs th <= sqrt (v0*v0 + v1*v1 + th*th)).
+    { rewrite <- sqrt_sq_abs. apply sqrt_le_1_alt. nra. }
+    lra. }
+  cbn [ltb Rops]. apply Rltb_false in Hn. rewrite Hn.
+  unfold unittwist2_norm, iszero. cbn [ltb abs_ Rops].
+  replace (Rltb (Rabs th) _) with false by (symmetry; apply Rltb_false; rewrite thv_R; lra).
+  unfold trexp2_unit, rodrigues1_with, iszerovec1, norm1. cbn [div mul sqrt_ ltb Rops].
+  assert (Hs1 : sqrt (th / Rabs th * (th / Rabs th)) = 1).
+  { assert (Habs2 : Rabs th * Rabs th = th*th) by (rewrite <- Rabs_mult; apply Rabs_pos_eq; nra).
+    replace (th / Rabs th * (th / Rabs th)) with ((th*th)/(Rabs th * Rabs th)) by (field; lra).
+    rewrite Habs2. replace (th*th/(th*th)) with 1 by (field; assumption). apply sqrt_1. }
+  rewrite Hs1. replace (Rltb 1 _) with false by (symmetry; apply Rltb_false; rewrite thv_R; lra).
+  f_equal. unfold rodrigues1_th, Vmat2. cbn [cos_ sin_ Rops].
+  destruct (Rle_dec 0 th) as [P|N].
+  - rewrite (Rabs_pos_eq th) by lra. replace (th/th) with 1 by (field; lra).
+    generalize (cos th) (sin th). intros c s. c03_simpl. tuple_eq ltac:(try (field; lra)).
+  - rewrite (Rabs_left th) by lra. replace (th / - th) with (-1) by (field; lra).
+    rewrite cos_neg, sin_neg. generalize (cos th) (sin th). intros c s. c03_simpl. tuple_eq ltac:(try (field; lra)).
+Qed.
+
+(* the two half-angle identities behind V2(theta)/theta . G(theta) = I, with a = b/tan b, b = theta/2 *)
+Lemma half_angle_G th : th <> 0 -> - PI < th < PI ->
+  let b := th/2 in let a := b / tan b in
+  sin th * a + (1 - cos th) * b = th /\ sin th * b - (1 - cos th) * a = 0.
+Proof.
+  intros H0 Hr. cbv zeta. pose proof PI_RGT_0.
+  assert (Hc : 0 < cos (th/2)) by (apply cos_gt_0; lra).
+  assert (Hs : sin (th/2) <> 0).
+  { destruct (Rlt_dec 0 th).
+    - assert (0 < sin (th/2)) by (apply sin_gt_0; lra). lra.
+    - assert (sin (th/2) < 0) by (apply sin_lt_0_var; lra). lra. }
+  pose proof (cs_unit (th/2)) as Hu.
+  replace (sin th) with (2 * sin (th/2) * cos (th/2)) by (rewrite <- sin_2a; f_equal; field).
+  replace (cos th) with (1 - 2 * sin (th/2) * sin (th/2)) by (rewrite <- cos_2a_sin; f_equal; field).
+  unfold tan. set (sb := sin (th/2)) in *. set (cb := cos (th/2)) in *. clearbody sb cb.
+  assert (E : cb*cb = 1 - sb*sb) by lra.
+  split.
+  - transitivity (th * (cb*cb + sb*sb)); [field; lra | rewrite E; ring].
+  - field. lra.
+Qed.
+
+(* exp2(log2 T) = T for T in SE(2), outside the identity band, rotation angle above the unit threshold and not a half turn
+   (over R, tan(PI/2) is 1/0: the model's a = b/tan b is unspecified exactly at theta = +-PI; in floats tan(pi/2) ~ 1.6e16) *)
+Theorem explog2_se2 K (Tm : M33 R) :
+  thr_ok_2d K -> SE2 Tm -> iseye33 Rops K Tm = false ->
+  let th := (let '((t00,_,_),(t10,_,_),_) := Tm in atan2 t10 t00) in
+  thv Rops (k_unit K) < Rabs th -> Rabs th < PI ->
+  trexp2_se2 Rops K (trlog2_se2_tw Rops K Tm) = Ok Tm.
+Proof.
+  intros HK [HSO Hlast] Heye. destruct Tm as [[[[t00 t01] tx] [[t10 t11] ty]] [[z0 z1] z2]]. unfold M33, V3 in *.
+  cbv zeta. intros Hth HthP.
+  cbn in Hlast. injection Hlast as -> -> ->.
+  cbn [t2r2] in HSO. pose proof (SO2_columns _ _ _ _ HSO) as (E1 & E2 & E3).
+  assert (Hu : t00*t00 + t10*t10 = 1) by exact E3.
+  destruct (cs_atan2_unit t00 t10 Hu) as [Hc Hs].
+  unfold trlog2_se2_tw. rewrite Heye. unfold trlog2_theta. cbn [atan2_ Rops].
+  set (th := atan2 t10 t00) in *.
+  assert (Hth0 : th <> 0).
+  { intro E. rewrite E, Rabs_R0, thv_R in Hth. destruct HK as ((Kz & Kzu & _) & _). pose proof eps_pos.
+    assert (0 <= IZR (k_unit K) * eps Rops) by (apply Rmult_le_pos; lra). lra. }
+  cbn [eqb zero Rops]. replace (Reqb th 0) with false by (symmetry; unfold Reqb; destruct (Req_EM_T th 0); [contradiction|reflexivity]).
+  cbn [div mul add neg tan_ Rops]. change (two Rops) with (1+1).
+  replace (th/(1+1)) with (th/2) by field.
+  rewrite trexp2_se2_value by assumption.
+  assert (HrP : - PI < th < PI) by (destruct (Rabs_def2 _ _ HthP); split; assumption).
+  destruct (half_angle_G th Hth0 HrP) as [G1 G2]. cbv zeta in G1, G2.
+  set (b := th/2) in *. set (a := b / tan b) in *. rewrite Hc, Hs. rewrite Hc, Hs in G1, G2.
+  f_equal. clearbody a b.
+  assert (X : (t10 * (a * tx + b * ty) - (1 - t00) * (- b * tx + a * ty)) / th = tx).
+  { transitivity (((t10*a + (1 - t00)*b) * tx + (t10*b - (1 - t00)*a) * ty)/th); [field; assumption|]. rewrite G1, G2. field. assumption. }
+  assert (Y : ((1 - t00) * (a * tx + b * ty) + t10 * (- b * tx + a * ty)) / th = ty).
+  { transitivity ((- (t10*b - (1 - t00)*a) * tx + (t10*a + (1 - t00)*b) * ty)/th); [field; assumption|]. rewrite G1, G2. field. assumption. }
+  rewrite X, Y, E2. rewrite <- E1. reflexivity.
+Qed.
+
+(* log2(exp2 S) = S for S = (v, theta), |theta| above the unit threshold and below PI, when the result is outside the identity band *)
+Theorem logexp2_se2 K v0 v1 th Tm :
+  thr_ok_2d K -> thv Rops (k_unit K) < Rabs th -> Rabs th < PI ->
+  trexp2_se2 Rops K (v0, v1, th) = Ok Tm -> iseye33 Rops K Tm = false ->
+  trlog2_se2_tw Rops K Tm = (v0, v1, th).
+Proof.
+  intros HK Hth HthP Hexp Heye. rewrite trexp2_se2_value in Hexp by assumption. injection Hexp as <-.
+  unfold trlog2_se2_tw. rewrite Heye. unfold trlog2_theta. cbn [atan2_ Rops].
+  assert (HrP : - PI < th < PI) by (destruct (Rabs_def2 _ _ HthP); split; assumption).
+  rewrite atan2_sin_cos by lra.
+  assert (Hth0 : th <> 0).
+  { intro E. rewrite E, Rabs_R0, thv_R in Hth. destruct HK as ((Kz & Kzu & _) & _). pose proof eps_pos.
+    assert (0 <= IZR (k_unit K) * eps Rops) by (apply Rmult_le_pos; lra). lra. }
+  cbn [eqb zero Rops]. replace (Reqb th 0) with false by (symmetry; unfold Reqb; destruct (Req_EM_T th 0); [contradiction|reflexivity]).
+  cbn [div mul add neg tan_ Rops]. change (two Rops) with (1+1). replace (th/(1+1)) with (th/2) by field.
+  destruct (half_angle_G th Hth0 HrP) as [G1 G2]. cbv zeta in G1, G2.
+  set (b := th/2) in *. set (a := b / tan b) in *. clearbody a b.
+  set (s := sin th) in *. set (c := cos th) in *. clearbody s c.
+  apply f_equal2; [apply f_equal2|reflexivity].
+  - transitivity (((s*a + (1 - c)*b) * v0 + (s*b - (1 - c)*a) * v1)/th); [field; assumption|]. rewrite G1, G2. field. assumption.
+  - transitivity ((- (s*b - (1 - c)*a) * v0 + (s*a + (1 - c)*b) * v1)/th); [field; assumption|]. rewrite G1, G2. field. assumption.
+Qed.
+
+(* SO(2): log2 then exp2, and exp2 then log2 *)
+Theorem explog2_so2 K (Rm : M22 R) :
+  thr_ok K -> SO2 Rm -> thv Rops (k_unit K) < Rabs (trlog2_so2 Rops Rm) ->
+  trexp2_so2 Rops K (trlog2_so2 Rops Rm) = Ok Rm.
+Proof.
+  intros HK HSO Hth. destruct Rm as [[a b] [c d]]. pose proof (SO2_columns _ _ _ _ HSO) as (E1 & E2 & E3).
+  unfold trlog2_so2, trlog2_theta in *. cbn [atan2_ Rops] in *.
+  destruct (cs_atan2_unit a c E3) as [Hc Hs]. set (th := atan2 c a) in *.
+  pose proof HK as (Kz & Kzu & Kh & Ke & Kiu & Kz1 & Kiu1). pose proof eps_pos as He. rewrite thv_R in Hth.
+  assert (Hku : 0 <= IZR (k_unit K) * eps Rops) by (apply Rmult_le_pos; lra).
+  assert (Hzu : IZR (k_zero K) * eps Rops <= IZR (k_unit K) * eps Rops) by (apply Rmult_le_compat_r; lra).
+  assert (Hth0 : th <> 0) by (intro E; rewrite E, Rabs_R0 in Hth; lra).
+  unfold trexp2_so2, rodrigues1, iszerovec1, unitvec_norm1, norm1. cbn [mul sqrt_ ltb div Rops].
+  rewrite sqrt_sq_abs.
+  replace (Rltb (Rabs th) _) with false by (symmetry; apply Rltb_false; rewrite thv_R; lra).
+  replace (Rltb _ (Rabs th)) with true by (symmetry; apply Rltb_true; rewrite thv_R; lra).
+  f_equal. unfold rodrigues1_th. cbn [cos_ sin_ Rops].
+  destruct (Rle_dec 0 th) as [P|N].
+  - rewrite (Rabs_pos_eq th) by lra. replace (th/th) with 1 by (field; lra). rewrite Hc, Hs, E1, E2. c03_simpl. tuple_eq ltac:(ring).
+  - rewrite (Rabs_left th) by lra. replace (th / - th) with (-1) by (field; lra). rewrite cos_neg, sin_neg, Hc, Hs, E1, E2.
+    c03_simpl. tuple_eq ltac:(ring).
+Qed.
